@@ -747,7 +747,7 @@ theorem spec_opTail (n : Nat) (pos : Pos) (op : Operation) (name : Name) :
   exact ⟨_, h1.trans (h2.trans h3), vars, dirs, ss, u3, rfl, by simp [p1.1, p2.1], p1.2, p3⟩
 
 theorem spec_parseOperationDefinition (n : Nat) :
-    Spec (parseOperationDefinition n) (fun o a a' => a.σ.head.kind = .name ∨ a.σ.head.kind = .braceL → Eats POp o a a') := by
+    Spec (parseOperationDefinition n) (Eats POp) := by
   rw [parseOperationDefinition_eq]
   refine (Spec.bind spec_peek fun t => Spec.ite
     (fun _ => Spec.bind spec_peekPos fun pos => Spec.bind (spec_parseRequiredSelectionSet n) fun ss => Spec.pure _)
@@ -758,7 +758,7 @@ theorem spec_parseOperationDefinition (n : Nat) :
     ⟨hk, pos, a2, ⟨rfl, hpos⟩, ss, a3, ⟨u1, h1, p1⟩, rfl, rfl⟩ |
     ⟨hk, pos, a2, ⟨rfl, hpos⟩, op, a3, hop, t2, a4, ⟨rfl, rfl⟩,
       ⟨hk2, tn, a5, hn, u3, h3, vars, dirs, ss, uss, rfl, q1, q2, q3⟩ |
-      ⟨hk2, u3, h3, vars, dirs, ss, uss, rfl, q1, q2, q3⟩⟩⟩ hkind
+      ⟨hk2, u3, h3, vars, dirs, ss, uss, rfl, q1, q2, q3⟩⟩⟩
   · obtain ⟨p11, p12, p13, p14⟩ := p1
     cases u1 with
     | nil => exact absurd rfl p14
@@ -766,11 +766,7 @@ theorem spec_parseOperationDefinition (n : Nat) :
       refine ⟨_, (Ate.peeked a).trans ((Ate.peeked _).trans h1), ⟨t1, rest, rfl, ?_⟩, derives_shorthand ss pos p13,
         .inl rfl, by simp, p11, p12⟩
       rw [hpos]; exact congrArg Token.start h1.head
-  · have hkn : a.σ.head.kind = .name := by
-      rcases hkind with h | h
-      · exact h
-      · exact absurd h hk
-    obtain ⟨t1, e1, e2, e3⟩ := hop rfl
+  · obtain ⟨t1, e1, e2, e3⟩ := hop rfl
     have hne3 : a3.σ.NoEof := e1.noEof hne
     obtain ⟨f1, f2, f3⟩ := next_eats (a := { a3 with pk := true }) (k := .name) hne3 rfl hk2 (by decide) (by decide) hn
     have hnm : tn.value ≠ [] := f3.2.2 (f1 ▸ hk2)
@@ -780,11 +776,7 @@ theorem spec_parseOperationDefinition (n : Nat) :
     · refine (derives_operation { op := op, name := tn.value, vars := vars, dirs := dirs, sel := ss, pos := pos } e3 q2
         q3.2.2.1).cast ?_ rfl
       simp [e2, hnm, q1, ofToken_name (f1 ▸ hk2)]
-  · have hkn : a.σ.head.kind = .name := by
-      rcases hkind with h | h
-      · exact h
-      · exact absurd h hk
-    obtain ⟨t1, e1, e2, e3⟩ := hop rfl
+  · obtain ⟨t1, e1, e2, e3⟩ := hop rfl
     refine ⟨_, (Ate.peeked a).trans ((Ate.peeked _).trans (e1.trans ((Ate.peeked a3).trans h3))),
       ⟨t1, _, rfl, ?_⟩, ?_, e3, q2, q3.1, q3.2.1⟩
     · rw [hpos]; exact congrArg Token.start e1.head
@@ -887,13 +879,13 @@ theorem spec_queryDocLoop (m : Nat) : ∀ (n : Nat) (doc : QueryDoc), Spec (quer
           (fun _ => Spec.ite (fun _ => Spec.bind (spec_parseFragmentDefinition m) fun fd => ih _)
             (fun _ => Spec.of_dead_bind (R := fun _ _ _ => False) unexpectedError_dead))).mono ?_
         rintro d a a'' _ ⟨t2, a1, ⟨rfl, rfl⟩, ⟨_, od, a2, hod, hrest⟩ | ⟨_, ⟨_, fd, a2, hfd, hrest⟩ | ⟨_, hf⟩⟩⟩ hh
-        · exact DocRel.peeked (DocRel.cons_op (hod (.inl (by rw [hh]; exact hk))) hrest)
+        · exact DocRel.peeked (DocRel.cons_op hod hrest)
         · exact DocRel.peeked (DocRel.cons_frag hfd hrest)
         · exact hf.elim
       · rename_i hk
         refine (Spec.bind (spec_parseOperationDefinition m) fun od => ih _).mono ?_
         rintro d a a'' _ ⟨od, a2, hod, hrest⟩ hh
-        exact DocRel.cons_op (hod (.inr (by rw [hh]; exact hk))) hrest
+        exact DocRel.cons_op hod hrest
       · exact Spec.of_dead_bind unexpectedError_dead
     · rintro d a a'' _ ⟨t, a1, ⟨rfl, rfl⟩, ⟨_, e, a2, ⟨rfl, rfl⟩, ⟨he, _⟩ | ⟨_, _, a3, ⟨rfl, _⟩, t1, a4, ⟨rfl, rfl⟩, h⟩⟩ |
         ⟨hk, rfl, rfl⟩⟩
